@@ -7,62 +7,62 @@ VERIF = os.path.dirname(os.path.dirname(os.path.abspath(__file__)))
 
 CHECKS = {
     "C01": dict(
-        technique="property-based testing (Hypothesis): constructed histories x methods x schedules; validity-predicate oracle replaying remaining lot balances with the method's primary ranking key",
-        text="Generated-input search over valid single-asset histories (ties, partial lots, income events, method changes, mixed offsets) against a ranking predicate computed from the input rows; finds ordering defects such as the HIFO/LOFO heap bug (F1) within seconds. Search, not proof: absence is not established.",
+        technique="property-based testing (Hypothesis): constructed histories x methods x schedules; validity-predicate oracle replaying remaining lot balances with the method's primary ranking key + end-to-end tier (files -> CLI -> report cells -> same predicate)",
+        text="Generated-input search over valid single-asset histories (ties, partial lots, income events, method changes, mixed offsets) against a ranking predicate computed from the input rows; finds ordering defects such as the HIFO/LOFO heap bug (F1) within seconds. Search, not proof: absence is not established. Second tier, same predicate: generated multi-asset files through the real console entry point, figures read back from rp2_full_report.ods with no rp2 code in the checking process.",
         note="Trusts CPython fractions/decimal, Hypothesis, and the 60-line predicate in rp2v/checks/c01.py; ties in the primary key are not judged; rp2 driven in-process through its public API (editable install of /repo/src).",
         design="DESIGN.md section 4 / C01",
     ),
     "C02": dict(
-        technique="property-based testing (Hypothesis): valid, over-spending and fully-liquidating history variants; iff-verdict + coverage predicate from the input rows",
-        text="Generated histories incl. dust/transient over-spends and full liquidations; oracle = per-event exact coverage, per-lot no-overspend, no-lot-from-the-future and an order-independent accept/reject verdict computed from the rows.",
+        technique="property-based testing (Hypothesis): valid, over-spending and fully-liquidating history variants; iff-verdict + coverage predicate from the input rows + end-to-end tier (files -> CLI -> report cells -> same predicate)",
+        text="Generated histories incl. dust/transient over-spends and full liquidations; oracle = per-event exact coverage, per-lot no-overspend, no-lot-from-the-future and an order-independent accept/reject verdict computed from the rows. Second tier, same predicate: generated multi-asset files through the real console entry point, figures read back from rp2_full_report.ods with no rp2 code in the checking process.",
         note="allow_negative_balances=True isolates the matcher's guard; amounts <= 11 decimals; optional crypto_out_with_fee consistent when present (R4).",
         design="DESIGN.md section 4 / C02",
     ),
     "C03": dict(
-        technique="property-based testing (Hypothesis): histories cycling through all 14 transaction types; expected taxable set derived from the rows vs taxable_event_set and per-event fraction coverage",
-        text="Generated histories over all types/tables; oracle = set equality of taxable events by row plus per-event shape (income: one lot-less full-amount zero-basis fraction at its fiat value; out: amount+fee; transfer: fee only, type MOVE).",
+        technique="property-based testing (Hypothesis): histories cycling through all 14 transaction types; expected taxable set derived from the rows vs taxable_event_set and per-event fraction coverage + end-to-end tier (files -> CLI -> report cells -> same predicate)",
+        text="Generated histories over all types/tables; oracle = set equality of taxable events by row plus per-event shape (income: one lot-less full-amount zero-basis fraction at its fiat value; out: amount+fee; transfer: fee only, type MOVE). Second tier, same predicate: generated multi-asset files through the real console entry point, figures read back from rp2_full_report.ods with no rp2 code in the checking process.",
         note="For an income row with a fee either fiat_in_no_fee or fiat_in_with_fee is accepted as 'its fiat value'; histories valid by construction.",
         design="DESIGN.md section 4 / C03",
     ),
     "C04": dict(
-        technique="property-based testing (Hypothesis) against an exact rational (fractions.Fraction) reference model with a 1e-15 relative bound, plus a runtime Decimal->float conversion monitor",
-        text="Wide-range numerics (1e-11..1e9 units, prices 1e-8..1e7, supplied fiat columns) compared per fraction and re-assembled per event / per fully consumed lot against exact arithmetic; largest observed relative error is reported (about 1e-30).",
+        technique="property-based testing (Hypothesis) against an exact rational (fractions.Fraction) reference model with a 1e-15 relative bound, plus a runtime Decimal->float conversion monitor + end-to-end tier (files -> CLI -> report cells -> same predicate)",
+        text="Wide-range numerics (1e-11..1e9 units, prices 1e-8..1e7, supplied fiat columns) compared per fraction and re-assembled per event / per fully consumed lot against exact arithmetic; largest observed relative error is reported (about 1e-30). Second tier, same predicate: generated multi-asset files through the real console entry point, figures read back from rp2_full_report.ods with no rp2 code in the checking process.",
         note="Monitor wraps RP2Decimal.__float__ from outside the package; supplied fiat values > 0 and crypto_out_with_fee consistent (R4).",
         design="DESIGN.md section 4 / C04",
     ),
     "C05": dict(
-        technique="exhaustive boundary grid (11k points: instants x offset pairs x +-1us/1s around the threshold x all country plugins / generic periods) + Hypothesis-generated multi-lot disposals; integer-microsecond oracle",
-        text="The grid part enumerates its finite sub-domain completely (grid_exhaustive=true); the generated part covers multi-lot disposals with lots on both sides of the threshold, income events and random offsets.",
+        technique="exhaustive boundary grid (11k points: instants x offset pairs x +-1us/1s around the threshold x all country plugins / generic periods) + Hypothesis-generated multi-lot disposals; integer-microsecond oracle + end-to-end tier (files -> CLI -> report cells -> same predicate)",
+        text="The grid part enumerates its finite sub-domain completely (grid_exhaustive=true); the generated part covers multi-lot disposals with lots on both sides of the threshold, income events and random offsets. Second tier, same predicate: generated multi-asset files through the real console entry point, figures read back from rp2_full_report.ods with no rp2 code in the checking process.",
         note="Periods that cannot be reached before year 9999 (10^9 days, JP/IE) are exercised as 'never'; generic plugin built under a patched environment.",
         design="DESIGN.md section 4 / C05",
     ),
     "C06": dict(
-        technique="property-based testing (Hypothesis): independent re-summation of detail fractions by (own local year, asset, type, long) vs yearly_gain_loss_list, with to-date and from-date",
-        text="Multi-year histories with mixed long/short sales and local-year != UTC-year instants; map equality (no duplicate, no empty line), four sums per line, grand totals, from-year restriction.",
+        technique="property-based testing (Hypothesis): independent re-summation of detail fractions by (own local year, asset, type, long) vs yearly_gain_loss_list, with to-date and from-date + end-to-end tier (files -> CLI -> report cells -> same predicate)",
+        text="Multi-year histories with mixed long/short sales and local-year != UTC-year instants; map equality (no duplicate, no empty line), four sums per line, grand totals, from-year restriction. Second tier, same predicate: generated multi-asset files through the real console entry point, figures read back from rp2_full_report.ods with no rp2 code in the checking process.",
         note="Date-monotone histories (R3); sums compared to 1e-25 relative; the detail itself is tied to the input by C01-C05.",
         design="DESIGN.md section 4 / C06",
     ),
     "C07": dict(
-        technique="property-based testing (Hypothesis): per-account flow model from the rows vs balance_set, plus reconciliation sum(final) = lots - consumed",
-        text="Multi-account (joint filing) histories with transfers incl. to-self, to-date cuts and, with -n, injected overdrafts; exact equality of acquired/sent/received/final per account and of the reconciliation identity.",
+        technique="property-based testing (Hypothesis): per-account flow model from the rows vs balance_set, plus reconciliation sum(final) = lots - consumed + end-to-end tier (files -> CLI -> report cells -> same predicate)",
+        text="Multi-account (joint filing) histories with transfers incl. to-self, to-date cuts and, with -n, injected overdrafts; exact equality of acquired/sent/received/final per account and of the reconciliation identity. Second tier, same predicate: generated multi-asset files through the real console entry point, figures read back from rp2_full_report.ods with no rp2 code in the checking process.",
         note="Per-holder totals are a report-level figure (C13); whole-holding over-spends are C02's subject and skipped.",
         design="DESIGN.md section 4 / C07",
     ),
     "C08": dict(
-        technique="property-based testing (Hypothesis) with injected overdrafts (dust..large, transient, permuted row order, same-instant mixes) against a three-valued order-independent verdict",
-        text="Must-reject / must-accept / undecided verdict computed from the rows; rejected runs must raise RP2ValueError naming an overdrawn account; with -n the negative final balance must be reported.",
-        note="Tolerance band [-1e-10,0) and same-instant transfer chains are not asserted (counted as ambiguous_skipped).",
+        technique="property-based testing (Hypothesis) with injected overdrafts (dust..large, transient, permuted row order, same-instant mixes incl. deposit+sale with one timestamp) against an order-independent verdict from the rows + end-to-end tier (files -> CLI with windows and -n -> exit status, output directory, report balances)",
+        text="Verdict computed from the rows, independent of the order inside an instant: must-reject (an account ends an instant below -1e-10), must-accept (balance as a function of time never negative, also when a debit is covered by a transfer credited at the same instant), undecided (tolerance band). Rejected runs must raise RP2ValueError naming an overdrawn account and write no report; with -n the negative final balance must be reported. Second tier: files through the real CLI with any -f/-t window, with and without -n, half with an injected overdraft. One listed known finding (F12: same-timestamp transfer chain accepted or rejected depending on row order) is matched by signature.",
+        note="Tolerance band [-1e-10,0) is not asserted (counted as ambiguous_skipped); whole-holding over-spends are C02's subject.",
         design="DESIGN.md section 4 / C08",
     ),
     "C09": dict(
-        technique="stateful property-based testing (Hypothesis RuleBasedStateMachine growing a history; invariant compares every earlier snapshot) + metamorphic to-date vs truncation relation",
+        technique="stateful property-based testing (Hypothesis RuleBasedStateMachine growing a history; invariant compares every earlier snapshot) + metamorphic to-date vs truncation relation with optional sheet-like row renumbering (adding an acquisition shifts every OUT/INTRA row; first rows near 9|10, 99|100), results mapped back before comparison",
         text="Every cut point of every generated growth history is compared (fractions, figures, closed-year totals); the to-date form compares whole ComputedData dumps incl. k/n labels, balances, average price, running sums.",
         note="Cut points between distinct instants; form (b) histories date-monotone (R3).",
         design="DESIGN.md section 4 / C09",
     ),
     "C10": dict(
-        technique="metamorphic property-based testing (Hypothesis): unfiltered vs to-date-only vs from+to runs of the same history; independent recount of k/n labels",
-        text="Windows on/around/between transaction dates, empty windows, from==to; identical figures for shown fractions, exact window membership of transactions, balances/average price/labels as of the to-date, yearly lines from the from-year. One listed known finding (F7, non-monotone local dates) is matched by signature.",
+        technique="metamorphic property-based testing (Hypothesis): unfiltered vs to-date-only vs from+to runs of the same history; independent recount of k/n labels + end-to-end tier (two CLI runs per case, window vs none, -m or [accounting_methods])",
+        text="Windows on/around/between transaction dates, empty windows, from==to; identical figures for shown fractions, exact window membership of transactions, balances/average price/labels as of the to-date, yearly lines from the from-year. One listed known finding (F7, non-monotone local dates) is matched by signature. Second tier: the console entry point run with and without the window on the same files; windowed detail rows must be the unfiltered rows dated in the window, figure by figure.",
         note="Date-monotone histories (R3) except in the sub-generator aimed at F7; sold-percentage is judged by C13.",
         design="DESIGN.md section 4 / C10",
     ),
@@ -75,7 +75,7 @@ CHECKS = {
     "C12": dict(
         category="fault_enumeration",
         technique="fault injection driven by Hypothesis: one fault from a ~110-class catalogue at a generated applicable position of a generated valid input; fail-closed predicate on real CLI runs",
-        text="Each case is one real run of rp2_<country> on a valid base input with exactly one documented fault; oracle = non-zero exit AND error text AND no report written. Fault classes hit are listed in the evidence; a sixth of the cases also verify that the fault-free base is accepted.",
+        text="Each case is one real run of rp2_<country> on a valid base input (several flavours: mixed, buy-only, income-only, transfer-heavy) with exactly one documented fault; fault classes are weighted by their number of applicable positions; oracle = non-zero exit AND error text AND no report written. Fault classes hit are listed in the evidence; a sixth of the cases also verify that the fault-free base is accepted.",
         note="Faults only in data rows; R5/R6 ambiguities are not injected; which message is printed is not asserted.",
         design="DESIGN.md section 4 / C12",
     ),
@@ -86,31 +86,31 @@ CHECKS = {
         design="DESIGN.md section 4 / C16",
     ),
     "C18": dict(
-        technique="exhaustive ast scan of every rp2 module against a network/process deny-list + Hypothesis-generated CLI runs (valid and faulty inputs) under an interpreter audit hook with input hashing",
-        text="Static half enumerates the finite set of modules completely; dynamic half judges socket/ssl/http/subprocess/os.exec/fork events, every path opened for writing or renamed/removed/created, import_module calls from rp2 frames, SHA-256 and mtime of the inputs.",
+        technique="exhaustive ast scan of every rp2 module against a network/process deny-list + Hypothesis-generated CLI runs (valid and faulty inputs) under an interpreter audit hook with input hashing; decoy files outside the output directory, environment switches, half of the runs on faulty inputs",
+        text="Static half enumerates the finite set of modules completely; dynamic half judges socket/ssl/http/subprocess/os.exec/fork events, every path opened for writing or renamed/removed/created, import_module calls from rp2 frames, SHA-256 and mtime of the inputs. Look-alike files (report names, .bak) planted in cwd, $HOME and a sibling of the output directory must stay untouched; the output directory may hold nothing but the reports.",
         note="Audit hooks see interpreter-level events only; third-party dependencies are trusted base.",
         design="DESIGN.md section 4 / C18",
     ),
     "C13": dict(
-        technique="property-based testing (Hypothesis) of real CLI runs with read-back of every cell of rp2_full_report.ods (own ODS reader) against ComputedData obtained through the API from the same files, plus independent running sums / sold % / window membership from the generated rows",
-        text="Generated multi-asset inputs x methods/schedules x windows x 6 country/language pairs; sheets, legend (method(s), filters), In/Out/Intra tables, summaries, balances with per-holder totals, average price and the gain/loss detail incl. k/n labels are compared cell by cell.",
+        technique="property-based testing (Hypothesis) of real CLI runs with read-back of every cell of rp2_full_report.ods (own ODS reader) against ComputedData obtained through the API from the same files, plus independent running sums / sold % / window membership from the generated rows; k/n labels recounted from the fraction list",
+        text="Generated multi-asset inputs x methods/schedules x windows x 6 country/language pairs; sheets, legend (method(s), filters), In/Out/Intra tables, summaries, balances with per-holder totals, average price and the gain/loss detail incl. k/n labels are compared cell by cell. A report generator that aborts on a valid input is a violation (the report shows nothing).",
         note="Doubles compared to double precision, hyperlink payload decimals exactly; running sums tie-tolerant; legend 'a->b:' wording not judged.",
         design="DESIGN.md section 4 / C13",
     ),
     "C14": dict(
-        technique="property-based testing (Hypothesis) of real rp2_us / rp2_ie runs: multiset equality between the rows of all tax-report sheets and the window's fractions, sheet map taken from the property statement",
-        text="Inputs cycle through all 14 transaction types with 2-3 assets sharing sheets; every fraction must appear exactly once on exactly the sheet of its type, sheets without rows must be absent, no gaps or overwritten rows.",
+        technique="property-based testing (Hypothesis) of real rp2_us / rp2_ie runs: multiset equality between the rows of all tax-report sheets and the window's fractions, sheet map taken from the property statement; with a from-date the expected rows are selected by the checker from a run without one",
+        text="Inputs cycle through all 14 transaction types with 2-3 assets sharing sheets; every fraction must appear exactly once on exactly the sheet of its type, sheets without rows must be absent, no gaps or overwritten rows. Volume tail: > 95 rows on one sheet from a mix of types; a tax-report generator that aborts on a valid input is a violation.",
         note="Numbers enter the multiset key rounded to 9 significant digits (cells are doubles).",
         design="DESIGN.md section 4 / C14",
     ),
     "C15": dict(
         technique="property-based testing (Hypothesis) of real CLI runs with read-back of open_positions.ods against a conservation-law model (unrealised cost from unconsumed lot parts, balances from the computed balance set)",
-        text="Multi-asset, multi-holder inputs incl. fully sold, income-only and buy-only assets and random to-dates; row sets of both sheets, balances, per-unit cost, cost bases adding up to the unrealised cost, weights adding up to 1, realised + unrealised = total cost.",
+        text="Multi-asset, multi-holder inputs incl. fully sold, income-only and buy-only assets and random to-dates; row sets of both sheets, balances, per-unit cost, cost bases adding up to the unrealised cost, weights adding up to 1, realised + unrealised = total cost. Exchange-supplied fiat columns (free to disagree with amount x price) are generated.",
         note="Sums compared to 1e-12 relative; assets whose unrealised cost is below 1e-12 are not judged (R13).",
         design="DESIGN.md section 4 / C15",
     ),
     "C17": dict(
-        technique="metamorphic property-based testing (Hypothesis) on real CLI runs: hash-seed invariance, row/table/sheet permutation invariance, asset-subset invariance, plus a stateful RuleBasedStateMachine over one output directory",
+        technique="metamorphic property-based testing (Hypothesis) on real CLI runs: hash-seed invariance, row/table/sheet permutation invariance, asset-subset invariance, plus a stateful RuleBasedStateMachine over one output directory; files left in the output directory besides the reports are compared as well; a failure that does not reproduce on the identical case is reported (nondeterminism)",
         text="content.xml of every report is compared byte for byte between the related runs; asset-subset relation compares parsed cells of the asset's sheets/rows; API dumps keyed by unique id are compared as well.",
         note="Permutation relation only for inputs with pairwise distinct instants; meta.xml (creation date) is not compared.",
         design="DESIGN.md section 4 / C17",
@@ -123,7 +123,7 @@ CHECKS = {
     ),
     "C20": dict(
         technique="property-based testing (Hypothesis) of real rp2_jp runs with read-back of sheet names, transaction rows and cross-sheet formula text of tax_report_jp.ods",
-        text="Sparse / non-consecutive years, years first met out of order across tables, disposal-only years, -g en / kl / default; exact sheet set, per-year transaction rows (multiset + time order), opening-balance chain to the greatest earlier year recognised through the closing cells' own formulas, summary lines. Found and now guards F8 (fixed).",
+        text="Sparse / non-consecutive years, years first met out of order across tables, disposal-only years, -g en / kl / default; exact sheet set, per-year transaction rows (multiset + time order), opening-balance chain to the greatest earlier year recognised through the closing cells' own formulas, summary lines. Found and now guards F8 (fixed). Summary lines must point at the result cells (average price, closing balances, net income) recognised on the asset-year sheet by their own formulas.",
         note="yen = amount x spot price in this generator; DONATE yen cell (formatted text) and fee-less transfers not judged; values below 1e-12 are dust (R13).",
         design="DESIGN.md section 4 / C20",
     ),
